@@ -505,6 +505,9 @@ class PreparedStatementPlanner():
 
         if params is not None:
 
+            if stmt.params is None:
+                # already executed (see below)
+                raise PlanningException("Can't execute statement")
             if len(params) != len(stmt.params):
                 raise PlanningException("Count of execution parameters don't match prepared statement")
 
